@@ -15,33 +15,33 @@ theorem ostep_base {pw : Pid → List Wid} {x x' : X} {t : Tid} {b : Bool} {f : 
   | none => simp [hs] at h
   | some c' => simp [hs] at h; subst h; rfl
 
-@[simp] theorem settle_reg (e : Env) (t : Tid) (b : Bool) : (settle e t b).reg = e.reg := by
+@[simp] theorem settle_reg (e : Env) (t : Tid) (b : Bool) (r : Option Res) : (settle e t b r).reg = e.reg := by
   unfold settle; split
-  · split <;> rfl
+  · split <;> (try split) <;> rfl
   · rfl
-@[simp] theorem settle_mic (e : Env) (t : Tid) (b : Bool) : (settle e t b).mic = e.mic := by
+@[simp] theorem settle_mic (e : Env) (t : Tid) (b : Bool) (r : Option Res) : (settle e t b r).mic = e.mic := by
   unfold settle; split
-  · split <;> rfl
+  · split <;> (try split) <;> rfl
   · rfl
-@[simp] theorem settle_thr (e : Env) (t : Tid) (b : Bool) : (settle e t b).thr = e.thr := by
+@[simp] theorem settle_thr (e : Env) (t : Tid) (b : Bool) (r : Option Res) : (settle e t b r).thr = e.thr := by
   unfold settle; split
-  · split <;> rfl
+  · split <;> (try split) <;> rfl
   · rfl
-@[simp] theorem settle_rl (e : Env) (t : Tid) (b : Bool) : (settle e t b).rl = e.rl := by
+@[simp] theorem settle_rl (e : Env) (t : Tid) (b : Bool) (r : Option Res) : (settle e t b r).rl = e.rl := by
   unfold settle; split
-  · split <;> rfl
+  · split <;> (try split) <;> rfl
   · rfl
 
 theorem ostep_env {pw : Pid → List Wid} {x x' : X} {t : Tid} {b : Bool} {f : Env → Env}
-    (h : ostep pw x t b f = some x') : ∃ i, x'.env = settle (f x.env) t i := by
+    (h : ostep pw x t b f = some x') : ∃ i r, x'.env = settle (f x.env) t i r := by
   unfold ostep at h
   cases hs : step? pw (fun _ => b) x.base t with
   | none => simp [hs] at h
-  | some c' => simp [hs] at h; subst h; exact ⟨_, rfl⟩
+  | some c' => simp [hs] at h; subst h; exact ⟨_, _, rfl⟩
 
 theorem ostep_reg {pw : Pid → List Wid} {x x' : X} {t : Tid} {b : Bool} {f : Env → Env}
     (h : ostep pw x t b f = some x') : x'.env.reg = (f x.env).reg := by
-  obtain ⟨i, hi⟩ := ostep_env h; rw [hi, settle_reg]
+  obtain ⟨i, r, hi⟩ := ostep_env h; rw [hi, settle_reg]
 
 theorem startPiece_base {pw : Pid → List Wid} {x x' : X} {t : Tid} {op : Op} {f : Env → Env}
     (h : startPiece pw x t op f = some x') : step? pw (fun _ => false) x.base t = some x'.base := by
@@ -235,6 +235,9 @@ theorem xstep_reg {pw : Pid → List Wid} {x x' : X} {t : Tid} (h : xstep? pw x 
         | run p r =>
           simp only [Option.some.injEq] at h; subst h; rfl
         | callAndWait p r =>
+          simp only at h
+          rw [startPiece_reg h]; rfl
+        | submitNB p w r =>
           simp only at h
           rw [startPiece_reg h]; rfl
     | _ =>
